@@ -294,6 +294,12 @@ def rule_unfix(run):
     uf = prog.func('mulgrids.unfix_blockname')
     rets = [r for r in walk_no_nested(uf.node) if isinstance(r, ast.Return) and r.value is not None]
     key = "mulgrids.unfix_blockname :: digit pair printed through int() with width 2"
+    body_ = [st for st in uf.node.body if not (isinstance(st, ast.Expr) and isinstance(st.value, ast.Constant))]
+    if len(rets) == 2 and len(body_) == 1 and isinstance(body_[0], ast.If) and len(body_[0].body) == 1 and len(body_[0].orelse) == 1 and \
+       isinstance(body_[0].body[0], ast.Return) and isinstance(body_[0].orelse[0], ast.Return):
+        # the statement form of the conditional expression
+        rets = [ast.copy_location(ast.Return(value=ast.copy_location(ast.IfExp(test=body_[0].test, body=body_[0].body[0].value, orelse=body_[0].orelse[0].value),
+                                                                     body_[0])), body_[0])]
     if len(rets) != 1:
         run.unknown(key, '%d returns' % len(rets), where=uf.where())
     else:
@@ -311,7 +317,12 @@ def rule_unfix(run):
             run.violated(key, 'the integer is not printed in a 2-column field: `%s`' % norm(conv), where=uf.where(rets[0]))
         if isinstance(v, ast.IfExp):
             r_ = norm(v.test) in ('name[3:5].isdigit()',)
-            run.shape(r_, 'mulgrids.unfix_blockname :: applies when the last two characters are digits', 'condition `%s`' % norm(v.test), where=uf.where(rets[0]))
+            tc_ = set(norm(x) for x in (v.test.values if isinstance(v.test, ast.BoolOp) and isinstance(v.test.op, ast.And) else [v.test]))
+            if not r_ and 'name[3:5].isdigit()' in tc_:
+                run.violated('mulgrids.unfix_blockname :: applies when the last two characters are digits',
+                             'the condition also demands %s: a name the simulator prints with a blank fourth column (`(a3, i2)` applies to every '
+                             'name ending in two digits) is left as it is' % sorted(tc_ - set(['name[3:5].isdigit()'])), where=uf.where(rets[0]))
+            else: run.shape(r_, 'mulgrids.unfix_blockname :: applies when the last two characters are digits', 'condition `%s`' % norm(v.test), where=uf.where(rets[0]))
             run.check(norm(v.orelse) == 'name', 'mulgrids.unfix_blockname :: other names unchanged', 'else-branch returns %s' % norm(v.orelse), where=uf.where(rets[0]))
     fx = prog.func('mulgrids.fix_blockname')
     ifs = [n for n in walk_no_nested(fx.node) if isinstance(n, ast.If)]
@@ -324,6 +335,9 @@ def rule_unfix(run):
         if conds == want and good_body: run.ok(key, where=fx.where(ifs[0]))
         elif conds != want and (conds < want or want < conds):
             run.violated(key, 'the repair condition is %s' % sorted(conds), where=fx.where(ifs[0]))
+        elif conds == want and any(isinstance(c, ast.Call) and call_name(c) == 'replace' and norm(c.func.value) == 'name' for c in ast.walk(ifs[0].body[0])):
+            run.violated(key, 'the repair is `%s`: replace() on the whole name fills every blank, not only the fourth column, so a name with a '
+                         'leading blank comes back changed' % body, where=fx.where(ifs[0]))
         elif conds == want and not good_body: run.unknown(key, 'repair expression `%s` not recognised' % body, where=fx.where(ifs[0]))
         else: run.unknown(key, 'condition %s not recognised' % sorted(conds), where=fx.where(ifs[0]))
     else: run.unknown(key, 'shape not recognised', where=fx.where())
